@@ -36,13 +36,13 @@ def sig(i):
     return ch
 
 
-def roundtrip(ir, style, emit_default_doc, emit_types):
+def roundtrip(ir, style, emit_default_doc, emit_types, word_wrap=False):
     """emit -> parse; returns (diag or None, back)"""
     import cdd.docstring.emit
     import cdd.docstring.parse
     import cdd.docstring.utils.parse_utils as pu
 
-    text = cdd.docstring.emit.docstring(deepcopy(ir), docstring_format=style, word_wrap=False, emit_types=emit_types,
+    text = cdd.docstring.emit.docstring(deepcopy(ir), docstring_format=style, word_wrap=word_wrap, emit_types=emit_types,
                                         emit_default_doc=emit_default_doc)
     with shim(pu, **ADHOC_SHIMS):
         try:
@@ -52,8 +52,8 @@ def roundtrip(ir, style, emit_default_doc, emit_types):
     return None, back
 
 
-def check(ir, style, edd, et):
-    d, back = roundtrip(ir, style, edd, et)
+def check(ir, style, edd, et, word_wrap=False):
+    d, back = roundtrip(ir, style, edd, et, word_wrap)
     if d:
         return d
     types_written = et or style == "google"  # the Google emitter always writes the type
@@ -180,6 +180,32 @@ for _s, _edd, _et in CONFIGS:
        bound="a:str with the empty default or a 1-character default over %r" % SIGMA)(_p1_str1(_s, _edd, _et))
     ob("C01", "K2.names.%s" % _t, {"n0": R(97, 122)}, T=400, tier="thorough", funcs=FUNCS, assumes=[ADHOC_SHIMS_DOC],
        bound="first parameter named <letter>q for EVERY lower-case letter (names are dict keys: realised, solver-enumerated), followed by a second parameter")(_k2(_s, _edd, _et))
+
+
+# P1.wrap: word_wrap=True with the description LENGTH chosen by the solver (the wrap column falls at every place of the prose) ------
+WORDS = ("lorem ipsum dolor sit amet consectetur adipiscing elit sed do eiusmod tempor incididunt ut labore et dolore magna aliqua "
+         "ut enim ad minim veniam quis nostrud exercitation ullamco laboris nisi ut aliquip ex ea commodo consequat duis aute irure")
+
+
+def _p1_wrap(style, et, lo, hi):
+    def body(L, neg):
+        desc = WORDS[:lo].rstrip()
+        for k in range(lo + 1, hi + 1):
+            if L == k:
+                desc = WORDS[:k].rstrip()
+        ir = mk_ir([("beta", {"typ": "int", "doc": desc, "default": -42 if neg else 7}), ("gamma", {"typ": "str", "doc": "last one", "default": "z"})])
+        return check(ir, style, True, et, word_wrap=True)
+
+    return body
+
+
+for _s in ("rest", "google"):
+    for _et in (True, False):
+        for _lo, _hi, _tier in ((60, 100, "quick"), (100, 200, "thorough")):
+            ob("C01", "P1.wrap.%s.%s.L%d" % (_s, "types" if _et else "notypes", _lo), {"L": R(_lo, _hi), "neg": BOOL}, tier=_tier, T=400, tpath=60, funcs=FUNCS,
+               assumes=[ADHOC_SHIMS_DOC, "word_wrap=True: textwrap.fill realises its argument, so the description length is enumerated by the solver (every length in the range)"],
+               bound="word_wrap=True, first of two parameters with an int default and a description of EVERY length %d..%d (the 100-column wrap falls at every position of '... Defaults to -42')" % (_lo, _hi),
+               )(_p1_wrap(_s, _et, _lo, _hi))
 
 
 def f21_witness(x):
